@@ -27,7 +27,14 @@ Base2 == [ sense |-> "max",
   objective |-> << [kind |-> "polynomial", terms |-> << [ids |-> <<7, 3, 3>>, c |-> R(1)] >>] >>,
   constraints |-> << C(1, "le", << L(<< T(7, R(1)) >>, R(-2)) >>) >>,
   removed |-> <<>>, deps |-> <<>>, params |-> <<>>, hints |-> <<>>, description |-> <<>>, parameters |-> <<>> ]
-Undef == L(<< T(99, R(1)) >>, R(0))
+\* functions that mention the undefined variable 99 at every place a message can mention a variable
+UndefFns == << L(<< T(99, R(1)) >>, R(0)),
+               [kind |-> "quadratic", rows |-> <<99>>, columns |-> <<1>>, values |-> <<R(1)>>, linear |-> <<>>],
+               [kind |-> "quadratic", rows |-> <<1>>, columns |-> <<99>>, values |-> <<R(1)>>, linear |-> <<>>],
+               [kind |-> "quadratic", rows |-> <<1>>, columns |-> <<1>>, values |-> <<R(1)>>, linear |-> << L(<< T(99, R(2)) >>, R(0)) >>],
+               [kind |-> "polynomial", terms |-> << [ids |-> <<1, 99, 1>>, c |-> R(1)] >>],
+               L(<< T(1, R(1)), T(99, R(0)) >>, R(0)) >>
+Undef == UndefFns[1]
 NoFn == [kind |-> "none"]
 F(t, w, i, j) == [t |-> t, w |-> w, i |-> i, j |-> j]
 SetAt(seq, i, x) == [seq EXCEPT ![i] = x]
@@ -36,8 +43,9 @@ Faults(raw) ==
   \cup { F("dupcon", "aa", i, j) : i \in DOMAIN raw.constraints, j \in DOMAIN raw.constraints }
   \cup { F("dupcon", "ar", i, j) : i \in DOMAIN raw.constraints, j \in DOMAIN raw.removed }
   \cup { F("dupcon", "rr", i, j) : i \in DOMAIN raw.removed, j \in DOMAIN raw.removed }
-  \cup { F("undef", w, 0, 0) : w \in {"objective", "depkey", "depfn", "onehot_cid", "onehot_var", "sos1_bin", "sos1_bigm", "sos1_var"} }
-  \cup { F("undef", "con", i, 0) : i \in DOMAIN raw.constraints } \cup { F("undef", "rem", i, 0) : i \in DOMAIN raw.removed }
+  \cup { F("undef", w, 0, 0) : w \in {"depkey", "onehot_cid", "onehot_var", "sos1_bin", "sos1_bigm", "sos1_var"} }
+  \cup { F("undef", w, 0, j) : w \in {"objective", "depfn"}, j \in DOMAIN UndefFns }
+  \cup { F("undef", "con", i, j) : i \in DOMAIN raw.constraints, j \in DOMAIN UndefFns } \cup { F("undef", "rem", i, j) : i \in DOMAIN raw.removed, j \in DOMAIN UndefFns }
   \cup { F("unset", w, 0, 0) : w \in {"sense", "objective_missing", "objective_oneof", "dep_oneof"} }
   \cup { F("unset", w, i, 0) : w \in {"con_fn_missing", "con_fn_oneof", "con_eq"}, i \in DOMAIN raw.constraints }
   \cup { F("unset", w, i, 0) : w \in {"rem_c_missing", "rem_fn_missing", "rem_fn_oneof", "rem_eq"}, i \in DOMAIN raw.removed }
@@ -71,11 +79,11 @@ Apply(raw, f) ==
     [] f.t = "dupcon" /\ f.w = "aa" -> [raw EXCEPT !.constraints[f.j].id = raw.constraints[f.i].id]
     [] f.t = "dupcon" /\ f.w = "ar" -> MapRemC(raw, f.j, LAMBDA c : [c EXCEPT !.id = raw.constraints[f.i].id])
     [] f.t = "dupcon" /\ f.w = "rr" -> MapRemC(raw, f.j, LAMBDA c : [c EXCEPT !.id = raw.removed[f.i].c[1].id])
-    [] f.t = "undef" /\ f.w = "objective" -> [raw EXCEPT !.objective = << Undef >>]
-    [] f.t = "undef" /\ f.w = "con" -> [raw EXCEPT !.constraints[f.i].f = << Undef >>]
-    [] f.t = "undef" /\ f.w = "rem" -> MapRemC(raw, f.i, LAMBDA c : SetConF(c, << Undef >>))
+    [] f.t = "undef" /\ f.w = "objective" -> [raw EXCEPT !.objective = << UndefFns[f.j] >>]
+    [] f.t = "undef" /\ f.w = "con" -> [raw EXCEPT !.constraints[f.i].f = << UndefFns[f.j] >>]
+    [] f.t = "undef" /\ f.w = "rem" -> MapRemC(raw, f.i, LAMBDA c : SetConF(c, << UndefFns[f.j] >>))
     [] f.t = "undef" /\ f.w = "depkey" -> [raw EXCEPT !.deps[1] = << 98, @[2] >>]
-    [] f.t = "undef" /\ f.w = "depfn" -> [raw EXCEPT !.deps[1] = << @[1], Undef >>]
+    [] f.t = "undef" /\ f.w = "depfn" -> [raw EXCEPT !.deps[1] = << @[1], UndefFns[f.j] >>]
     [] f.t = "undef" /\ f.w = "onehot_cid" -> [raw EXCEPT !.hints[1].onehot[1].cid = 77]
     [] f.t = "undef" /\ f.w = "onehot_var" -> [raw EXCEPT !.hints[1].onehot[1].vars = Append(@, 99)]
     [] f.t = "undef" /\ f.w = "sos1_bin" -> [raw EXCEPT !.hints[1].sos1[1].bin = 77]
@@ -106,8 +114,8 @@ Bases == {Base1, Base2}
 \* parametric variants: variable 2 (resp. 3) becomes a parameter; parameter faults
 P(id) == [id |-> id, name |-> <<>>, subs |-> <<>>, params |-> <<>>, desc |-> <<>>]
 PBase == [Base1 EXCEPT !.vars = SubSeq(@, 1, 1) \o SubSeq(@, 3, 5), !.parameters = << P(2), P(60) >>, !.hints = <<>>]
-PFaults == { F("none", "", 0, 0), F("pdup", "var", 0, 0), F("pdup", "param", 0, 0), F("undef", "objective", 0, 0),
-             F("undef", "con", 1, 0), F("undef", "rem", 1, 0), F("dupcon", "aa", 1, 2), F("dupcon", "ar", 1, 1), F("dupcon", "rr", 1, 2), F("dupvar", "", 1, 2) }
+PFaults == { F("none", "", 0, 0), F("pdup", "var", 0, 0), F("pdup", "param", 0, 0), F("undef", "objective", 0, 1), F("undef", "objective", 0, 4),
+             F("undef", "con", 1, 1), F("undef", "con", 1, 5), F("undef", "rem", 1, 1), F("dupcon", "aa", 1, 2), F("dupcon", "ar", 1, 1), F("dupcon", "rr", 1, 2), F("dupvar", "", 1, 2) }
 PApply(raw, f) == CASE f.t = "pdup" /\ f.w = "var" -> [raw EXCEPT !.parameters[1].id = 1]
                     [] f.t = "pdup" /\ f.w = "param" -> [raw EXCEPT !.parameters[2].id = 2]
                     [] OTHER -> Apply(raw, f)
